@@ -1108,7 +1108,7 @@ func runC04(cfg *vh.Config) error {
 				}
 				res.Count("property-differs")
 				paths := collapse(raw, p.P.PK == PMap)
-				sigs := explain(p, raw)
+				sigs := explain(p, raw, want, reflProps[i])
 				if sigs == nil {
 					sigs = []string{fmt.Sprintf("C04 %s: reflected schema differs from the declared one at %s", shapeOf(p.P), strings.Join(paths, " "))}
 				}
@@ -1199,6 +1199,45 @@ func dedup(xs []string) []string {
 type asymmetry struct {
 	sig     string
 	allowed []string
+	// guard (optional): what the known defect leaves intact must be intact — otherwise the
+	// difference is not (only) the known one and reports under its own signature
+	guard func(want, got *schema_j5pb.ObjectProperty) bool
+}
+
+func itemField(op *schema_j5pb.ObjectProperty) *schema_j5pb.Field {
+	switch t := op.GetSchema().GetType().(type) {
+	case *schema_j5pb.Field_Array:
+		return t.Array.GetItems()
+	case *schema_j5pb.Field_Map:
+		return t.Map.GetItemSchema()
+	}
+	return op.GetSchema()
+}
+
+// a declared key item that reads back as a key without its format, or (when it carries neither an
+// entity annotation nor list rules) as a string: entity and list rules must have survived
+func keyExtrasIntact(want, got *schema_j5pb.ObjectProperty) bool {
+	w := itemField(want).GetKey()
+	if w == nil {
+		return true
+	}
+	wl := w.ListRules
+	if want.GetSchema().GetMap() != nil {
+		wl = nil // list rules of map values do not reach the reader (a class of its own)
+	}
+	switch g := itemField(got).GetType().(type) {
+	case *schema_j5pb.Field_Key:
+		return proto.Equal(w.Entity, g.Key.Entity) && proto.Equal(wl, g.Key.ListRules)
+	case *schema_j5pb.Field_String_:
+		return w.Entity == nil && wl == nil && g.String_.ListRules == nil
+	}
+	return false
+}
+
+// a declared string whose pattern is the id62 pattern reads back as key:id62 — and nothing else
+func stringAsID62Key(want, got *schema_j5pb.ObjectProperty) bool {
+	g := itemField(got).GetKey()
+	return g != nil && g.GetFormat().GetId62() != nil && g.Entity == nil && g.ListRules == nil
 }
 
 func asymmetryClasses(p genDecl) []asymmetry {
@@ -1214,7 +1253,8 @@ func asymmetryClasses(p genDecl) []asymmetry {
 		t.List = nil // list rules of map values do not reach the reader (own class below)
 	}
 	var out []asymmetry
-	add := func(sig string, allowed ...string) { out = append(out, asymmetry{sig, allowed}) }
+	add := func(sig string, allowed ...string) { out = append(out, asymmetry{sig: sig, allowed: allowed}) }
+	guarded := func(g func(want, got *schema_j5pb.ObjectProperty) bool) { out[len(out)-1].guard = g }
 	// independent of the item type
 	if !descPlain(p.P.Desc) && descExpressible(p.P.Desc) {
 		add("C04 description with a line starting with '#': the reader's commentDescription drops the line", ".description")
@@ -1237,6 +1277,7 @@ func asymmetryClasses(p genDecl) []asymmetry {
 		add("C04 string format: StringField.format is not written to the descriptor and does not read back", item+".string.format")
 	case wk(2):
 		add("C04 string whose pattern is the published id62 pattern: reads back as key:id62", item+".string", item+".key")
+		guarded(stringAsID62Key)
 	case wk(0) || wk(1):
 		add("C04 string whose pattern is the reader's well-known date / number pattern: reads back as format date / number without the pattern", item+".string.format", item+".string.rules.pattern")
 	case t.Kind == TAny && (t.AnyOD || len(t.AnyT) > 0) && p.P.PK != PSingle:
@@ -1244,12 +1285,14 @@ func asymmetryClasses(p genDecl) []asymmetry {
 	case t.Kind == TKey && (t.KF == KCustom || t.KF == KInformal) && p.P.PK != PSingle && !(t.KF == KInformal && t.List != nil && p.P.PK == PArray):
 		// (an informal key item WITH list rules is recognised through its unique_string foreign key)
 		add("C04 array of key:custom / key:informal: the format lives in (j5.ext.v1.field).key, which the array annotation replaces", item+".key", item+".string")
+		guarded(keyExtrasIntact)
 	case t.Kind == TKey && t.KF == KCustom && t.KPat == wellKnownPatterns[2] && t.List == nil:
 		add("C04 key:custom whose pattern is the published id62 pattern: reads back as key:id62", item+".key.format")
 	case t.Kind == TKey && t.KF == KNone && t.List != nil:
 		add("C04 key without format but with list rules: reads back as key:informal", item+".key.format")
 	case t.Kind == TKey && t.KF == KNone && p.P.PK != PSingle && t.Entity == nil:
 		add("C04 array of key without format: (j5.ext.v1.field) is the array's, the items read back as string", item+".key", item+".string")
+		guarded(keyExtrasIntact)
 	case (t.Kind == TDate || t.Kind == TDecimal) && t.Txt != nil && p.P.PK != PSingle:
 		add("C04 array of date/decimal with rules: the rules live in (j5.ext.v1.field), which the array annotation overwrites", item+".date.rules", item+".decimal.rules")
 	case t.Kind == TObject && t.Flatten && p.P.PK != PSingle:
@@ -1261,10 +1304,13 @@ func asymmetryClasses(p genDecl) []asymmetry {
 // explain: the known asymmetries that together account for every differing
 // path (each used one accounts for at least one path); nil when some path is
 // left unexplained — the difference then keeps its own path-based signature.
-func explain(p genDecl, raw []string) []string {
+func explain(p genDecl, raw []string, want, got *schema_j5pb.ObjectProperty) []string {
 	var sigs []string
 	var allowed []string
 	for _, a := range asymmetryClasses(p) {
+		if a.guard != nil && !a.guard(want, got) {
+			continue
+		}
 		used := false
 		for _, path := range raw {
 			if allUnder([]string{path}, a.allowed) {
